@@ -99,12 +99,19 @@ fn verdict_json<S: ShortGroupSignatureScheme>(scn: &Scn<S>, v: &Value) -> (&'sta
 
 fn c11_suite<S: ShortGroupSignatureScheme>(em: &mut Emitter, base: &mut Rng, suite: &str) {
     let off = if suite == "bbs" { 0 } else { 1 };
-    for k in 0..em.n(4, 60) {
+    for k in 0..em.n(6, 60) {
         if !em.mine(2 * k + off) {
             continue;
         }
         let rng = &mut base.sub((2 * k + off) as u64);
         let mut mix = Mix::random(rng, k % 2 == 0);
+        // range statements whose bounds sit on the edge of the number domain (they exclude nothing, the proof must still be checked)
+        if k == 4 {
+            mix = Mix { n_creds: 1, n_claims: 3, disclosed: vec![vec![]], commitment: Some(2), range: Some((Some(i64::MIN), Some(i64::MAX))), age: 7, ..Default::default() };
+        }
+        if k == 5 {
+            mix = Mix { n_creds: 1, n_claims: 3, disclosed: vec![vec!["name".into()]], commitment: Some(2), range: Some(if suite == "bbs" { (Some(i64::MIN), None) } else { (None, Some(i64::MAX)) }), age: -3, ..Default::default() };
+        }
         if k == 0 {
             mix = Mix { n_creds: 2, n_claims: 4, disclosed: vec![vec!["city".into()], vec!["age".into()]], revocation: true, membership: true, equality: true, commitment: Some(2), range: Some((Some(0), Some(150))), verenc: Some((3, true)), ved: None, age: 40, shuffle: false };
             mix.disclosed = vec![vec![], vec!["age".into()]];
